@@ -18,7 +18,10 @@ ASSUMPTIONS = ['CPython: str(type(x)) names, native < on str/float/datetime/bool
                'implementation sees the real objects; the model reads TS: as the datetime cell (cmp ranks a Timestamp with the datetimes since fix 7a44481); np.str_ has no model cell '
                '(cmp ranks it apart from str, pinned by the repository test_cmp) and takes part in the implementation-only laws',
                'the op `native` compares the as_primitive images natively (these are the values sort() hands to sorted() as keys)',
-               'object identity (x is y shortcut) is not modelled; fresh and shared NaN objects are both generated']
+               'object identity (x is y shortcut) is not modelled; fresh and shared NaN objects are both generated',
+               'the missing date: pd.NaT (wire NAT) and np.datetime64(\'NaT\') (wire NAT64, a fresh object per decode) are one value of the model (ValN.nat, '
+               'cmpNaT) when they are one of the two values compared; inside a list / tuple / dict they are outside the model: sort / dictable.sort with '
+               'NaT are checked by the implementation-only laws (every pair of the output under the implementation\'s own cmp)']
 
 D = datetime.datetime
 TS = pd.Timestamp
@@ -30,6 +33,10 @@ TS = pd.Timestamp
 # TS:<us> and NS:<hex>; the Lean driver (CmpDriver.normSexp) reads them as T: / S:.
 
 def enc(v):
+    if v is pd.NaT:
+        return 'NAT'
+    if isinstance(v, np.datetime64) and np.isnat(v):
+        return 'NAT64'
     if isinstance(v, pd.Timestamp):
         return 'TS:%d' % proto.dt2us(v.to_pydatetime().replace(tzinfo=None))
     if isinstance(v, np.str_):
@@ -45,6 +52,10 @@ def enc(v):
 
 def dec(x):
     if isinstance(x, str):
+        if x == 'NAT':
+            return pd.NaT
+        if x == 'NAT64':
+            return np.datetime64('NaT')         # a fresh object every time, like a fresh float('nan')
         if x.startswith('TS:'):
             return pd.Timestamp(proto.us2dt(int(x[3:])))
         if x.startswith('NS:'):
@@ -63,7 +74,7 @@ def dec(x):
 def _plain(x):
     """parsed sexp with the C07-only spellings rewritten to the shared ones (for canonical comparison)"""
     if isinstance(x, str):
-        return 'T:' + x[3:] if x.startswith('TS:') else 'S:' + x[3:] if x.startswith('NS:') else x
+        return 'T:' + x[3:] if x.startswith('TS:') else 'S:' + x[3:] if x.startswith('NS:') else 'NAT' if x == 'NAT64' else x
     return [_plain(y) for y in x]
 
 
@@ -79,12 +90,15 @@ def same_reply(r1, r2):
         return False
 
 
+# missing dates: pd.NaT IS an instance of datetime.datetime (it ranks with the datetimes since fix 7a44481) and every native comparison with
+# it is False, as with NaN; np.datetime64('NaT') is its numpy spelling (two objects of different identity, like the NaNs) - review t2 V1/V2
+NATS = [pd.NaT, np.datetime64('NaT'), np.datetime64('NaT')]
 NP_STRS = [np.str_('a'), np.str_('b')]        # cmp ranks np.str_ by its own type name (the repository's test_cmp pins it): no model cell, laws only
 
 
 def universe(laws=False):
     nan = float('nan')
-    return (NP_STRS if laws else []) + [None, True, False, 0, 1, -1, 2, 1.0, 2.5, -0.25, float('nan'), float('nan'), np.nan, float('inf'), float('-inf'),
+    return (NP_STRS if laws else []) + NATS + [None, True, False, 0, 1, -1, 2, 1.0, 2.5, -0.25, float('nan'), float('nan'), np.nan, float('inf'), float('-inf'),
             '', 'a', 'b', 'ab', 'B', D(2020, 1, 1), D(2020, 1, 2, 3), datetime.date(2020, 1, 1), np.int64(1), np.float64(1.0),
             np.float64('nan'), np.bool_(True), np.float64(2.5), 2 ** 53, 2 ** 53 + 1, float(2 ** 53),
             np.float64(2 ** 53), np.int64(2 ** 53 + 1), TS('2020-01-01'), TS('2020-01-02 03:00'),
@@ -102,6 +116,7 @@ NP_SCALARS = [2 ** 53, 2 ** 53 + 1, float(2 ** 53), np.float64(2 ** 53), np.int6
 BIG = [2 ** 53, 2 ** 53 + 1, 2 ** 53 + 2, float(2 ** 53), np.float64(2 ** 53), np.int64(2 ** 53 + 1), np.int64(2 ** 53), np.float64(2 ** 53 + 2)]
 DATES = [TS('2020-01-02'), TS('2020-01-01'), TS('2019-05-05 12:00'), D(2020, 1, 3), D(2020, 1, 1), D(2020, 1, 2), D(2019, 5, 5, 12)]
 STRS = [np.str_('a'), np.str_('b'), np.str_('ab'), 'a', 'b', 'c', 'ab', '']
+DATES_NAT = DATES + NATS + [pd.NaT]            # laws only (the model has NaT at scalar level only)
 
 
 def rand_scalar(rng, nan_rate=0.12, pool=None):
@@ -115,7 +130,7 @@ def rand_pool(rng, laws=False):
     same-kind pool (only then does sorted() stay on its native path with those spellings present).  np.str_ has no cell in the model
     (cmp ranks it between list and str): it is drawn for the implementation-only laws."""
     r = rng.random()
-    if r >= 0.90 and not laws:
+    if r >= 0.80 and not laws:
         return DATES
     if r < 0.55:
         return SCALARS
@@ -123,8 +138,10 @@ def rand_pool(rng, laws=False):
         return SCALARS + NP_SCALARS
     if r < 0.80:
         return BIG
-    if r < 0.90:
+    if r < 0.85:
         return DATES
+    if r < 0.93:
+        return DATES_NAT
     return STRS
 
 
@@ -324,6 +341,10 @@ def compare(case, i, line, ir, mr):
         # the property pins only part of the order; a different value is a divergence unless a law fails (see laws)
         if not ir.startswith('ok'):
             return 'cmp did not return -1/0/1: %s (model: %s)' % (ir, mr)
+        sx = proto.parse(line)
+        rev = _run_guarded('(cmp cmp %s %s)' % (proto.render(sx[3]), proto.render(sx[2])))
+        if rev.startswith('ok I:') and int(rev[5:]) != -int(ir[5:]):
+            return 'cmp(x,y)=%s but cmp(y,x)=%s (model: %s)' % (ir[5:], rev[5:], mr)
         return ('divergence', 'cmp returned %s, model %s' % (ir, mr))
     if line.startswith('(cmp native '):
         return ('divergence', "python's native comparison gives %s, the reference model Cell.native / nativeArr %s (an assumption about CPython, not a clause of the property)" % (ir, mr))
@@ -334,7 +355,8 @@ def compare(case, i, line, ir, mr):
     bad = statement_fails(line, ir)
     if bad:
         return '%s; implementation %s, model %s' % (bad, ir, mr)
-    if 'NS:' in line:
+    if 'NS:' in line or 'NAT' in line:
+        # (a missing date inside a list / tuple is outside the model as well: `ValN`)
         # a np.str_ has no cell in the model (the driver reads it as the str, cmp ranks it between list and str): the model's answer
         # is not authoritative here, the statement was just decided with the implementation's own cmp (itself law-checked with np.str_)
         return None
@@ -354,7 +376,8 @@ def statement_fails(line, ir):
         co = sorted(repr(proto.canon(_plain(proto.parse(enc(x))))) for x in out)
         if cx != co:
             return 'sort result is not a permutation of the input'
-        if any(pyg_base.cmp(a, b) == 1 for a, b in zip(out, out[1:])):
+        # every pair, not only neighbours: with an intransitive cmp (NaT before fix 72de39d) neighbours alone look ordered
+        if any(pyg_base.cmp(out[i], out[j]) == 1 for i in range(len(out)) for j in range(i + 1, len(out))):
             return 'sort result is not non-decreasing under cmp'
         return None
     if op in ('sortidx', 'sortidxl', 'byvalidx', 'sortfn'):
@@ -368,10 +391,12 @@ def statement_fails(line, ir):
             keys = [[(o.index(x) if x in o else len(o)) for o, x in zip(orders, r)] for r in rows]
         if sorted(out) != list(range(len(keys))):
             return 'dictable.sort result is not a permutation of the rows'
-        for a, b in zip(out, out[1:]):
-            c = pyg_base.cmp(keys[a], keys[b])
-            if c == 1 or (c == 0 and a > b):
-                return 'dictable.sort: rows %d,%d out of order / tie not in original order' % (a, b)
+        for i in range(len(out)):
+            for j in range(i + 1, len(out)):
+                a, b = out[i], out[j]
+                c = pyg_base.cmp(keys[a], keys[b])
+                if c == 1 or (c == 0 and a > b):
+                    return 'dictable.sort: rows %d,%d out of order / tie not in original order' % (a, b)
         return None
     return 'unknown op'
 
@@ -481,9 +506,28 @@ def laws(rng, tier, ctx):
             continue
         if sorted(map(id, xs)) != sorted(map(id, ys)):
             yield Finding('violation', case, 'sort result is not a permutation of the input')
-        elif any(pyg_base.cmp(a, b) == 1 for a, b in zip(ys, ys[1:])):
+        elif any(pyg_base.cmp(ys[i], ys[j]) == 1 for i in range(len(ys)) for j in range(i + 1, len(ys))):
             yield Finding('violation', case, 'sort result is not non-decreasing under cmp: %s' % enc(ys))
+    # dictable.sort with missing dates among the key cells (implementation only: ordered by its own cmp, ties in original order)
+    for _ in range(100 if tier == 'quick' else 2000):
+        k = rng.choice([2, 3, 4, 6, 9])
+        w = rng.choice([1, 1, 2])
+        pool = [rng.choice(DATES_NAT) for _ in range(rng.choice([2, 3, 5]))]
+        keys = [tuple(rng.choice(pool) for _ in range(w)) for _ in range(k)]
+        count += 1
+        line = '(cmp sortidx %s)' % enc(keys)
+        ir = _run_guarded(line)
+        bad = statement_fails(line, ir)
+        if bad:
+            yield Finding('violation', dict(tag='law-dictable-sort-nat', lines=[line]), '%s; implementation %s' % (bad, ir))
     yield count
+
+
+def _run_guarded(line):
+    try:
+        return run_line(None, proto.parse(line))
+    except Exception as e:
+        return proto.err_reply(e)
 
 
 def _exact(v):
